@@ -26,7 +26,7 @@ LEAN_TYPE = pysrc.LEAN_TYPE
 LEAN_TYPE.update({"HV": "List Int", "Vec": "List Int", "Tensor": "List (List Int)", "Slice": "Nat × Nat",
                   "Shape": "Nat × Nat", "Mask": "Mask", "ObsObj": "PyRt.ObsObj", "RawState": "PyRt.RawState",
                   "HostList": "List (Addr × List Int)", "NumMap": "List (Addr × Nat)", "Idx": "HostVector.Idx",
-                  "Bools": "List Bool"})
+                  "Bools": "List Bool", "NetRows": "List Row"})
 pysrc.LEAN_TYPE.update(LEAN_TYPE)
 
 # keyword of HostVector.observe -> field of the model's `Mask`
@@ -90,6 +90,13 @@ class TrRaw(Tr):
                     return f"({fn.lean} L {o})", fn.ret
             if t == "ObsObj" and e.attr in self.w.obs_consts:
                 return f"Observation.{e.attr}", "Nat"
+            if t == "NetRows":
+                if e.attr == "hosts":
+                    return o, "HostsDict"
+                if e.attr == "host_num_map":
+                    return f"(PyRt.numMapOf {o})", "NumMap"
+                if e.attr == "address_space_bounds":
+                    return "(L.b0, L.b1)", "Shape"
             if t == "RawState":
                 fn = self.w.lookup("RawState", e.attr)
                 if fn is not None and getattr(fn, "prop", False):
@@ -119,6 +126,9 @@ class TrRaw(Tr):
                 if kt != "Nat":
                     self.err(e, f"index map key of type {kt}")
                 return k, "Nat"
+            if t == "HostsDict":
+                k, kt = self.expr(e.slice, env)
+                return f"(PyRt.hostAt {o} {k})", "Row"
             if t == "NumMap":
                 k, _ = self.expr(e.slice, env)
                 return f"(PyRt.numMapGet {o} {k})", "Nat"
@@ -184,6 +194,20 @@ class TrRaw(Tr):
             if t in ("Int", "Nat"):
                 return a, t
             self.err(e, f"int() of {t}")
+        if text == "len" and len(e.args) == 1:
+            a, t = self.expr(e.args[0], env)
+            if t == "HostsDict":
+                return f"{a}.length", "Nat"
+            if t == "Vec":
+                return f"{a}.length", "Nat"
+        if text == "cls" and len(e.args) == 2 and self.fn.cls == "State":
+            a, ta = self.expr(e.args[0], env)
+            b, tb = self.expr(e.args[1], env)
+            if ta == "Tensor" and tb == "NumMap":
+                return f"({{ tensor := {a}, host_num_map := {b} }} : PyRt.RawState)", "RawState"
+        if text == "HostVector.vectorize" and len(e.args) == 2:
+            h, ht = self.expr(e.args[0], env)
+            return f"(HostVector.vectorize L {h})", "HV"
         if text == "bool" and len(e.args) == 1:
             a, t = self.expr(e.args[0], env)
             return self.as_bool(a, t, e), "Bool"
@@ -207,6 +231,8 @@ class TrRaw(Tr):
                 o, t = self.expr(f.value, env)
                 if t == "Bools":
                     return f"(PyRt.items {o})", "List:Nat*Bool"
+                if t == "HostsDict":
+                    return f"(PyRt.hostItems {o})", "List:Addr*Row"
                 self.err(e, f"items() of {t}")
             if f.attr == "argmax" and not e.args:
                 o, t = self.expr(f.value, env)
@@ -318,6 +344,10 @@ class TrRaw(Tr):
         out = super().assigned(stmts, env)
         for st in stmts:
             for x in ast.walk(st):
+                if isinstance(x, ast.Expr) and isinstance(x.value, ast.Call) and ast.unparse(x.value.func) == "HostVector.vectorize" \
+                        and len(x.value.args) == 3 and isinstance(x.value.args[2], ast.Subscript) \
+                        and isinstance(x.value.args[2].value, ast.Name) and x.value.args[2].value.id not in out:
+                    out.append(x.value.args[2].value.id)
                 if isinstance(x, ast.Expr) and isinstance(x.value, ast.Call) and isinstance(x.value.func, ast.Attribute) \
                         and x.value.func.attr == "append" and isinstance(x.value.func.value, ast.Name) \
                         and x.value.func.value.id not in out:
@@ -327,6 +357,13 @@ class TrRaw(Tr):
     def call_stmt(self, c, env, nxt, ind):
         pad = "  " * ind
         f = c.func
+        if ast.unparse(f) == "HostVector.vectorize" and len(c.args) == 3 and isinstance(c.args[2], ast.Subscript) \
+                and isinstance(c.args[2].value, ast.Name) and env.get(c.args[2].value.id, ("", ""))[1:] == ("Tensor",):
+            # writes through the row view handed in as `vector`
+            h, _ = self.expr(c.args[0], env)
+            t_ = c.args[2].value.id
+            i, _ = self.expr(c.args[2].slice, env)
+            return (f"{pad}let {t_} := {t_}.set {i} (HostVector.vectorize_into L {h} (PyRt.row {t_} {i}))\n" + nxt(env))
         if isinstance(f, ast.Attribute) and isinstance(f.value, ast.Name) and f.value.id in env \
                 and env[f.value.id][0] == "val":
             v, t = f.value.id, env[f.value.id][1]
@@ -534,6 +571,9 @@ def translate_observation():
     for nm, p in (("_get_service_idx", "srv_num"), ("_get_os_idx", "os_num"), ("_get_process_idx", "proc_num")):
         reg(hv_mod, "HostVector", "HV", nm, [(p, "Nat")], "Nat", classmethod=True)
     reg(hv_mod, "HostVector", "HV", "vectorize", [("host", "Row")], "HV", classmethod=True)
+    # the same source with the optional `vector` argument passed (as State.tensorize does: a row of the tensor)
+    fnv = reg(hv_mod, "HostVector", "HV", "vectorize_into", [("host", "Row"), ("vector", "Vec")], "HV", classmethod=True)
+    fnv.source_name = "vectorize"
     for nm, rt in (("compromised", "Int"), ("reachable", "Int"), ("discovered", "Int"), ("address", "Addr"),
                    ("value", "Int"), ("discovery_value", "Int"), ("access", "Int")):
         reg(hv_mod, "HostVector", "HV", nm, [], rt, prop=True)
@@ -572,6 +612,7 @@ def translate_observation():
     reg(obs_mod, "Observation", "ObsObj", "update_from_host", [("host_idx", "Nat"), ("host_obs_vector", "Vec")], None,
         mutates="self")
     # --- State
+    reg(state_mod, "State", "RawState", "tensorize", [("network", "NetRows")], "RawState", classmethod=True)
     reg(state_mod, "State", "RawState", "shape", [], "Shape")
     reg(state_mod, "State", "RawState", "get_host", [("host_addr", "Addr")], "HV")
     reg(state_mod, "State", "RawState", "get_host_idx", [("host_addr", "Addr")], "Nat")
@@ -592,7 +633,7 @@ def translate_observation():
             cache[key] = (_methods(mod, fn.cls), _prop_methods(mod, fn.cls))
         if key not in cache or len(cache[key]) < 3:
             cache[key] = cache[key] + (_setter_methods(mod, fn.cls),)
-        node = (cache[key][1] if fn.prop else cache[key][0]).get(fn.name)
+        node = (cache[key][1] if fn.prop else cache[key][0]).get(getattr(fn, "source_name", fn.name))
         if getattr(fn, "setter", None):
             node = cache[key][2].get(fn.setter)
         try:
